@@ -12,6 +12,7 @@ import (
 	"time"
 
 	"go.sia.tech/core/consensus"
+	rhp2 "go.sia.tech/core/rhp/v2"
 	rhp4 "go.sia.tech/core/rhp/v4"
 	"go.sia.tech/core/types"
 	"lukechampine.com/frand"
@@ -591,6 +592,25 @@ func RPCVerifySector(ctx context.Context, t TransportClient, prices rhp4.HostPri
 	}, nil
 }
 
+// freeSectorsProofSize returns the number of hashes (subtree and leaf hashes) of
+// a well-formed proof for removing the sectors at indices, which must be sorted
+// in descending order and unique, from a contract with numSectors sectors.
+func freeSectorsProofSize(indices []uint64, numSectors uint64) uint64 {
+	actions := make([]rhp2.RPCWriteAction, 0, len(indices)+1)
+	for i, n := range indices {
+		actions = append(actions, rhp2.RPCWriteAction{
+			Type: rhp2.RPCWriteActionSwap,
+			A:    n,
+			B:    numSectors - uint64(i) - 1,
+		})
+	}
+	actions = append(actions, rhp2.RPCWriteAction{
+		Type: rhp2.RPCWriteActionTrim,
+		A:    uint64(len(indices)),
+	})
+	return rhp2.DiffProofSize(actions, numSectors)
+}
+
 // RPCFreeSectors removes sectors from a contract.
 func RPCFreeSectors(ctx context.Context, t TransportClient, signer ContractSigner, cs consensus.State, prices rhp4.HostPrices, contract ContractRevision, indices []uint64) (RPCFreeSectorsResult, error) {
 	// sort indices descending and remove duplicates to avoid swapping a
@@ -625,6 +645,11 @@ func RPCFreeSectors(ctx context.Context, t TransportClient, signer ContractSigne
 	var resp rhp4.RPCFreeSectorsResponse
 	if err := rhp4.ReadResponse(s, &resp); err != nil {
 		return RPCFreeSectorsResult{}, fmt.Errorf("failed to read response: %w", err)
+	} else if uint64(len(resp.OldSubtreeHashes)+len(resp.OldLeafHashes)) != freeSectorsProofSize(indices, numSectors) {
+		// VerifyFreeSectorsProof does not check the shape of the proof: fed with
+		// too few subtree hashes, a proof built for a different set of indices
+		// can reproduce both the old and the new root.
+		return RPCFreeSectorsResult{}, clientErr("free sectors proof has the wrong size", ErrInvalidProof)
 	} else if !rhp4.VerifyFreeSectorsProof(resp.OldSubtreeHashes, resp.OldLeafHashes, indices, numSectors, contract.Revision.FileMerkleRoot, resp.NewMerkleRoot) {
 		return RPCFreeSectorsResult{}, clientErr("failed to verify free sectors proof", ErrInvalidProof)
 	}
